@@ -258,4 +258,4 @@ static bool replay(const std::string &text) {
     if (!key.empty()) printf("[replay] key=%s %s\n", key.c_str(), msg.c_str());
     return key.empty();
 }
-int main(int argc, char **argv) { return vp::main_(argc, argv, {run, replay}); }
+VP_MAIN(run, replay)
